@@ -12,7 +12,8 @@ def main():
     checks, na = [], []
     for pid in ALL:
         path = os.path.join(common.VERIF, "harness", "props", pid.lower() + ".py")
-        if not os.path.exists(path):
+        ready = open(os.path.join(common.VERIF, "harness", "ready.txt")).read().split()
+        if not os.path.exists(path) or pid not in ready:
             na.append({"property_id": pid,
                        "reason": "check not built yet (planned, see DESIGN.md section 4 / %s); not claimed" % pid})
             continue
